@@ -81,6 +81,9 @@ def apply(fn, idx, kind):
         n.op = ast.Sub() if isinstance(n.op, ast.Add) else ast.Add()
 
 
+VERBOSE = False
+
+
 def run_one(job):
     prop, rel, qual, desc, line, idx, kind, wt = job
     src_path = os.path.join("/repo", rel)
@@ -123,6 +126,9 @@ def run_one(job):
             out["check_exit"] = c.returncode
             v = [l for l in c.stdout.splitlines() if l.startswith("  obligation")]
             out["first"] = v[0][:200] if v else ""
+            if VERBOSE:
+                out["stdout"] = c.stdout[-3000:]
+                out["stderr"] = c.stderr[-3000:]
     except subprocess.TimeoutExpired:
         out["tests"] = out.get("tests", "timeout")
         out["check_exit"] = out.get("check_exit", "timeout")
@@ -137,10 +143,28 @@ def main():
     ap.add_argument("--jobs", type=int, default=8)
     ap.add_argument("--max-per-function", type=int, default=12)
     ap.add_argument("--out", default=os.path.join(ROOT, "seeded", "MUTATION.jsonl"))
+    ap.add_argument("--rerun", default="", help="result file: re-run the mutants in it that match --select")
+    ap.add_argument("--select", default="", help="python expression over a result row r, e.g. \"r['check_exit']==3\"")
+    ap.add_argument("--verbose", action="store_true")
     a = ap.parse_args()
+    global VERBOSE
+    VERBOSE = a.verbose
     props = [p for p in a.props.split(",") if p] or [f"C{i:02d}" for i in range(1, 21)]
     rnd = random.Random(0)
     jobs = []
+    RER = []
+    if a.rerun:
+        RER = [json.loads(l) for l in open(a.rerun)]
+        RER = [r for r in RER if r.get("tests") == "pass" and eval(a.select or "True", {"r": r})]
+        props = sorted({r["prop"] for r in RER})
+    if a.rerun:
+        for r in RER:
+            rel, qual = r["target"].split("::")
+            fn = find_function(ast.parse(open(os.path.join("/repo", rel), encoding="utf-8").read()), qual)
+            for (desc, line, idx, kind) in (mutants_of(fn) if fn is not None else []):
+                if (desc, line) == (r["op"], r["line"]):
+                    jobs.append([r["prop"], rel, qual, desc, line, idx, kind, None])
+        props = []
     for p in props:
         ev = json.load(open(os.path.join(ROOT, "evidence", p + ".json")))
         seen = set()
@@ -156,7 +180,12 @@ def main():
                 continue
             ms = list(mutants_of(fn))
             rnd.shuffle(ms)
-            for (desc, line, idx, kind) in ms[:a.max_per_function]:
+            if a.rerun:
+                want = {(r["op"], r["line"]) for r in RER if r["prop"] == p and r["target"] == tgt}
+                ms = [m for m in ms if (m[0], m[1]) in want]
+            else:
+                ms = ms[:a.max_per_function]
+            for (desc, line, idx, kind) in ms:
                 jobs.append([p, rel, qual, desc, line, idx, kind, None])
     print(f"{len(jobs)} mutants", file=sys.stderr)
     wts = []
